@@ -27,6 +27,48 @@ def shipped_tables(rng, n):
     return (keep + rest)[:n]
 
 
+_STAGES = {}
+
+
+def table_stages(path, seen=None):
+    """forward / backward stage opcodes (correct, pass2, pass3, pass4, context) a shipped table uses, include files followed;
+    read from the table text - a generator aid for picking tables with several stages, not a model of the compiler"""
+    path = str(path)
+    if path in _STAGES:
+        return _STAGES[path]
+    seen = seen or set()
+    out = set()
+    if path in seen or not os.path.exists(path):
+        return out
+    seen.add(path)
+    try:
+        text = open(path, encoding="utf-8", errors="replace").read()
+    except OSError:
+        return out
+    for line in text.splitlines():
+        w = line.split()
+        if not w or w[0].startswith("#"):
+            continue
+        d = "both"
+        if w[0] in ("nofor", "noback") and len(w) > 1:
+            d, w = w[0], w[1:]
+        if w[0] in ("correct", "pass2", "pass3", "pass4"):
+            if d != "nofor":
+                out.add(("fwd", w[0]))
+            if d != "noback":
+                out.add(("back", w[0]))
+        elif w[0] == "include" and len(w) > 1:
+            out |= table_stages(os.path.join(os.path.dirname(path), w[1]), seen)
+    _STAGES[path] = out
+    return out
+
+
+def multistage_tables(direction="fwd", least=2):
+    """shipped tables with at least `least` stages besides the main pass in the given direction"""
+    ts = sorted(glob.glob(str(REPO / "tables" / "*.ctb")) + glob.glob(str(REPO / "tables" / "*.utb")))
+    return [t for t in ts if len([1 for d, _ in table_stages(t) if d == direction]) >= least]
+
+
 RUNCHARS = [45, 95, 46, 61, 126, 58, 42, 64, 32, 0x2014, 0x2026, 9]
 
 
@@ -99,7 +141,8 @@ def gen_input(rng, maxlen=40):
 
 
 def gen_typeform(rng, n):
-    """emphasis in runs (italic 1, underline 2, bold 4, computer braille 8, no_translate 0x10, no_contract 0x20), often
+    """emphasis in runs (italic 1, underline 2, bold 4, emph_4 8 ... , computer_braille 0x400, no_translate 0x800,
+    no_contract 0x1000: liblouis.h), often
     starting or ending inside a word - an emphasis that begins and ends inside a contracted group makes the raw
     position map non-monotone"""
     tf = [0] * n
@@ -108,7 +151,7 @@ def gen_typeform(rng, n):
     i = 0
     while i < n:
         run = rng.range(1, 4)
-        v = rng.choice([0, 0, 0, 1, 1, 2, 4, 8, 0x10, 0x20, 1 | 4])
+        v = rng.choice([0, 0, 0, 1, 1, 2, 4, 8, 0x10, 0x20, 1 | 4, 0x400, 0x800, 0x1000, 0x1000, 0x1001])
         for k in range(i, min(n, i + run)):
             tf[k] = v
         i += run
@@ -175,7 +218,7 @@ def gen_case(rng, fns, maxlen=40, cells=False):
                 mode &= ~(2 | 32)
     tf = None
     if presence & 1 and rng.chance(0.6) and not cells:
-        tf = [rng.choice([0, 0, 0, 1, 2, 4, 8, 0x100, 0x200, 0x2000, 0x4000, 0x8000, 0xffff]) for _ in inp]
+        tf = [rng.choice([0, 0, 0, 1, 2, 4, 8, 0x100, 0x200, 0x400, 0x800, 0x1000, 0x1000, 0x2000, 0x4000, 0x8000, 0xffff]) for _ in inp]
     sp = None
     if presence & 2 and rng.chance(0.5):
         sp = "".join(rng.choice("0123456789 *") for _ in range(min(len(inp), 20)))
